@@ -47,7 +47,7 @@ Proof.
   intros o l r t Ho Hl Hr Hm Ha. pose proof types2_table as H. rewrite forallb_forall in H.
   specialize (H o Ho). pose proof (forall2_spec _ H l r) as E. cbv beta in E.
   rewrite Hl, Hr, Hm in E. cbn [andb negb orb] in E. unfold types_ok2 in E. rewrite Ha in E.
-  destruct (arule2 GA o l r None None); try discriminate. apply sty_eqb_eq in E. subst. eauto.
+  destruct (arule2 GA o l r None None); try discriminate E. apply sty_eqb_eq in E. subst. eauto.
 Qed.
 
 Theorem types_agree_ifelse : forall c a b t,
@@ -57,7 +57,7 @@ Theorem types_agree_ifelse : forall c a b t,
 Proof.
   intros c a b t Hc Ha Hb Hacc. pose proof (forall3_spec _ types3_table c a b) as E. cbv beta in E.
   rewrite Hc, Ha, Hb in E. cbn [andb negb orb] in E. unfold types_ok3 in E. rewrite Hacc in E.
-  destruct (arule_ifelse GA c a b None None None); try discriminate. apply sty_eqb_eq in E. subst. eauto.
+  destruct (arule_ifelse GA c a b None None None); try discriminate E. apply sty_eqb_eq in E. subst. eauto.
 Qed.
 
 (* ---- values: for ALL integers *)
